@@ -283,3 +283,52 @@ def run(ctx):
            ('by ORDER (%s at line %s): a to_seq that is not a message is accepted and paired with an earlier message' % (ord7[0][2], ord7[0][1]) if ord7 else
             'by no equality test in any closure that captures it%s: a to_seq that is not a message boundary can be recorded' % (' (a binary search is present)' if bs7 else ''))),
            line=(ord7[0][1] if ord7 else cc7.line))
+
+    # ---------------------------------------------------------------- C09.8
+    ctx.rule('C09.8', 'the in-flight scan is exhaustive within its window: the newest-first loop that looks for a summarizer job spawned without an end frame (it consults the set of ended '
+             'job ids) is left only when the iterator is exhausted or with a job found (a Some(..) is built on the way out). A scan that answers "none" at the first spawned-and-ended job it '
+             'meets hides a pending job behind a later finished one, and the scheduler spawns another job for a thread that already has one in flight.')
+    from ..inline import inline_calls as _inl8
+    fi8 = P.fn('ripd::continuities::ContinuityStore::find_inflight_compaction_job_id_best_effort_v1')
+    fi8 = _inl8(P, fi8, lambda body, callee: callee.startswith('ripd::') and bool(body.calls(r'HashSet::<T, S>::contains$|HashSet::<T, S, A>::contains$|HashSet::<.*>::contains$')), depth=2, note=ctx.note)
+    ctx.touch(fi8)
+    cont8 = fi8.calls(r'HashSet::<.*>::contains$|BTreeSet::<.*>::contains$')
+    if not cont8:
+        raise CheckError('C09.8: the in-flight scan no longer consults a set of ended job ids (anchor lost)')
+    # the lookup may sit on a way OUT of the loop (an arm that always leaves): the loop is the one whose header dominates it
+    loops8 = [(h, body) for h, body in fi8.loops().items() if any(c.bb in body or fi8.dom(h, c.bb) for c in cont8)]
+    if not loops8:
+        raise CheckError('C09.8: the ended-set lookup is not inside a loop')
+    h8, body8 = min(loops8, key=lambda x: len(x[1]))
+    nexts8 = [c for c in fi8.calls(r'Iterator>::next$|::next$|::next_back$') if c.bb in body8]
+    bad8 = []
+    nexit8 = 0
+    for b in sorted(body8):
+        for t in fi8.succs(b):
+            if t in body8 or fi8.is_cleanup(t):
+                continue
+            nexit8 += 1
+            # exhaustion: the exit is decided by the discriminant of what next() returned
+            tt = fi8.blocks[b]['t']
+            exhausted = False
+            if tt['k'] == 'switch':
+                o8 = fi8.origin(tt['on'])
+                if o8[0] == 'rv' and o8[1]['k'] == 'discr' and any(n.dest and n.dest['l'] == o8[1]['pl']['l'] for n in nexts8):
+                    exhausted = True
+            if exhausted:
+                continue
+            # found: a Some(..) is built on EVERY path from here to the return
+            some_blocks = [bb for bb in fi8.reachable() for st in fi8.blocks[bb]['s'] if (st.get('rv') or {}).get('k') == 'agg' and (st.get('rv') or {}).get('variant') == 'Some']
+            rets8 = [r_ for r_ in fi8.returns() if r_ in fi8.reachable()]
+            found = bool(some_blocks) and fi8.must_pass(some_blocks, t, rets8)
+            # ... or inside the exiting block itself
+            for st in fi8.blocks[b]['s']:
+                rv = st.get('rv') or {}
+                if rv.get('k') == 'agg' and rv.get('variant') == 'Some':
+                    found = True
+            if not found:
+                bad8.append((b, t))
+    ctx.ob('C09.8', fi8, 'inflight-scan-exhaustive', not bad8 and nexit8 >= 1,
+           ('%d way(s) out of the scan loop: exhaustion or a job found' % nexit8) if not bad8 else
+           'the scan loop is left from bb%d without the iterator being exhausted and without a job: a pending job further back in the window is never looked at' % bad8[0][0],
+           line=fi8.blocks[bad8[0][0]]['t'].get('ln', fi8.line) if bad8 else fi8.line)
